@@ -27,7 +27,8 @@ TRUSTED = ["hand-written model HierArc/Model/Sample.lean + Model/Lens.lean tied 
            "translator/tables.py (whitelist, dispatch table, num_data kinds)"]
 LEVEL_TEXT = ("Lean theorems: the sample term is the plain sum of the lens terms (append, permutation invariance), SNe / KDE / "
               "prior terms add independently; slope indices are 0,1,… in lens order, one per slope-interpolating lens, none "
-              "under global sampling, count = gamma_pl_num, and every slope lens reads exactly its own entry of the slope "
+              "under global sampling, count = gamma_pl_num, every index < gamma_pl_num whatever precedes the lens "
+              "(assign_index_lt), and every slope lens reads exactly its own entry of the slope "
               "vector arranged in lens order (so re-ordering lenses with slopes re-ordered accordingly changes no term); merge: "
               "local wins, only whitelisted globals inherited, generated whitelist ⊆ accepted keywords; num_data is the integer "
               "sum and is a value for every type (generated obligation on how each class provides num_data); non-interference: "
